@@ -313,10 +313,14 @@ fn run(t: &Tape, want_desc: bool) -> CaseResult {
                         let rec = send(&mut f, &caddr, false, &cell.contract, &wrapped);
                         judged += 1;
                         classes.push(label(m, cname, "rejected when smuggled through Receive"));
-                        if rec.outcome.is_ok() {
+                        if rec.outcome.is_ok() && !rec.state_unchanged() {
                             verdict = Verdict::Fail(format!(
-                                "{} was accepted as the payload of the contract's cw20 Receive entry, sent by {} ({}) with the envelope's sender field set to {}: only {:?} may send it", MESSAGES[m], cname, caddr, spoof, cell.authorised));
+                                "{} took effect as the payload of the contract's cw20 Receive entry, sent by {} ({}) with the envelope's sender field set to {}: only {:?} may send it", MESSAGES[m], cname, caddr, spoof, cell.authorised));
                             break 'states;
+                        }
+                        if rec.outcome.is_ok() {
+                            // an envelope that is accepted without any effect is not an accepted privileged message
+                            classes.push("smuggle:accepted-without-effect");
                         }
                         if !rec.state_unchanged() {
                             verdict = Verdict::Fail(format!("{} smuggled through Receive by {} was rejected but changed chain state", MESSAGES[m], cname));
@@ -344,8 +348,8 @@ pub fn suites() -> Vec<Suite> {
         head_len: 200,
         op_len: 0,
         max_ops: 0,
-        quick_cases: 1_500,
-        thorough_cases: 12_000,
+        quick_cases: 4_000,
+        thorough_cases: 60_000,
         run,
         direct: None,
         must_hit: &["state:before-ownership-transfer", "state:after-ownership-transfer", "state:pair-with-liquidity", "state:pair-holds-donated-lp"],
